@@ -277,6 +277,21 @@ def runLine (line : String) : String :=
           if diffs.isEmpty then "same" else "diff " ++ " ".intercalate (diffs.map toString)
       | _, _ => "bad-op"
     | _ => "bad-op"
+  | "G" :: rest =>
+    -- C02: the rule functions as the generator emits them (skip and rule calls symbolic)
+    match sexpParse rest with
+    | some [.list rs] =>
+      match rs.mapM oruleOf with
+      | some orules =>
+        let names := Lower.symbolNames orules
+        let decode := fun (s : String) =>
+          -- (call 8000000NN) -> (fn NAME), (call 900000000) -> (fnskip)
+          (names.zipIdx.foldl (fun (acc : String) (n, i) => acc.replace s!"(call {Lower.nameMarker + i})" s!"(fn {n})") s).replace
+            s!"(call {Lower.skipMarker})" "(fnskip)"
+        " ; ".intercalate (orules.zipIdx.map fun (r, i) =>
+          r.name ++ " " ++ decode (PStateDriver.showProg (Lower.genRuleSym names i r)))
+      | none => "bad-op"
+    | _ => "bad-op"
   | "S" :: ex :: rest =>
     -- C08: the failure report specified on the call tree of the reference semantics
     match sexpParse rest with
